@@ -25,7 +25,7 @@ use hickory_proto::rr::{RecordType, TSigner};
 use hickory_server::store::sqlite::Journal;
 use hickory_server::zone_handler::AxfrPolicy;
 use serde_json::{json, Value};
-use vcore::{catch, Ctx, Local, Odometer};
+use vcore::{catch, Ctx, Local};
 use vref::update as ru;
 use vupd::{a, cname, empty, ns, soa, txt, with_class, Env, Handler, JournalRow, Msg, Rr, Snap};
 
@@ -175,7 +175,6 @@ struct Ack {
     answered: Option<u32>,
     /// journal write points seen while this message (or the initial persist) was processed
     points: Vec<Point>,
-    msg: Option<Msg>,
 }
 
 struct Life {
@@ -237,7 +236,7 @@ impl Life {
         let env = Arc::new(Env::from_handler(h));
         let snap = w.rt.block_on(env.snapshot());
         let answered = answered_serial(&env);
-        Life { env, store: store.clone(), acks: vec![Ack { durable: store.durable(), rcode: None, snap, answered, points, msg: None }], recovery: None }
+        Life { env, store: store.clone(), acks: vec![Ack { durable: store.durable(), rcode: None, snap, answered, points }], recovery: None }
     }
 
     /// A later life: the journal file holds `rows`; the zone is recovered from it.
@@ -251,7 +250,7 @@ impl Life {
         let env = Arc::new(Env::from_handler(h));
         let snap = w.rt.block_on(env.snapshot());
         let answered = answered_serial(&env);
-        Ok(Life { env, store: store.clone(), acks: vec![Ack { durable: store.durable(), rcode: None, snap, answered, points: vec![], msg: None }], recovery })
+        Ok(Life { env, store: store.clone(), acks: vec![Ack { durable: store.durable(), rcode: None, snap, answered, points: vec![] }], recovery })
     }
 
     fn cur_serial(&self) -> u32 {
@@ -270,7 +269,7 @@ impl Life {
         };
         let snap = w.rt.block_on(self.env.snapshot());
         let answered = answered_serial(&self.env);
-        self.acks.push(Ack { durable: self.store.durable(), rcode, snap, answered, points, msg: Some(msg) });
+        self.acks.push(Ack { durable: self.store.durable(), rcode, snap, answered, points });
         Ok(())
     }
 
@@ -765,8 +764,16 @@ fn main() {
     let mut hists: Vec<Vec<usize>> = vec![vec![]];
     hists.extend(seqs(alpha.len(), hist_len));
     // thorough: the longest histories only from the small zone (cost), all others from both
-    let od = Odometer::new(&[hists.len() as u64, nz as u64]);
+    let mut cases: Vec<(usize, usize)> = vec![];
+    for zone in 0..nz {
+        for (hi, h) in hists.iter().enumerate() {
+            if zone == 0 || h.len() <= 3 {
+                cases.push((hi, zone));
+            }
+        }
+    }
     ctx.set("histories", json!(hists.len()));
+    ctx.set("history_x_start_zone_cases", json!(cases.len()));
     ctx.set("start_zones", json!(nz));
     ctx.set("alphabet", json!(alpha.iter().map(|m| m.name).collect::<Vec<_>>()));
     ctx.set("continuation_length_after_histories_up_to_2_messages", json!(plan.cont_len_short));
@@ -789,19 +796,14 @@ fn main() {
     ctx.assume("the crash-free run of the same implementation is the reference for boundary states and continuations (C12 judges them against RFC 2136)");
     ctx.assume("queries do not change state, so one SOA query after every message (and in-flight at every journal write point) dominates every interleaving of queries");
 
-    let total = od.space();
+    let total = cases.len() as u64;
     ctx.par_run_init(
         total,
         1,
         |wid| Worker::new(wid),
         |i, l, w| {
-            let d = od.get(i);
-            let hist = &hists[d[0] as usize];
-            let zone = d[1] as usize;
-            if zone == 1 && hist.len() > 3 {
-                l.outcome("skipped:longest-histories-only-from-the-small-zone");
-                return;
-            }
+            let (hi, zone) = cases[i as usize];
+            let hist = &hists[hi];
             let d1 = run_history(w, &plan, zone, hist, None, l);
             // determinism self-test on a fixed slice: the same case again must look the same
             if i % 8 == 0 && (hist.len() <= 2 || i % 64 == 0) {
